@@ -176,7 +176,8 @@ def load_known_findings(prop):
         if kv.get("property") != prop:
             continue
         if kind == "open":
-            opened.append({"id": kv.get("id"), "text": rest.strip()})
+            text = " ".join(f for f in fields if not f.startswith("property="))
+            opened.append({"id": kv.get("id"), "text": text})
         elif kind == "fixed":
             fixed.append({"text": rest.strip()})
     return opened, fixed
